@@ -31,7 +31,7 @@ def configs(tier, seed):
             for alpha in (0.4, 1.0, 2.5):
                 add(move="dp", n=n, outlier_prior=op, het=het, alpha=alpha, wiring="library")
             add(move="dp", n=n, outlier_prior=op, het=het, alpha=1.0, wiring="run", kernel="semi-adapted")
-    for kind, dims in (("flat", 1), ("peaked", 1), ("seeded", 1), ("generic", 2)):
+    for kind, dims in (("flat", 1), ("peaked", 1), ("seeded", 1), ("generic", 2), ("dup", 1)):
         add(move="dp", n=3, outlier_prior=0.2, alpha=1.3, data=kind, dims=dims, seed=seed)
         add(move="prg", n=3, outlier_prior=0.0, alpha=1.3, data=kind, dims=dims, seed=seed)
     # prune-regraft
